@@ -46,8 +46,10 @@ package threading
 //@   ensures  chanLen(rp.limitChan) == old(chanLen(rp.limitChan)) - 1 && wg(rp.waitGroup) == old(wg(rp.waitGroup)) - 1
 //@   ensures_panic false
 
-// RunSafe(fn): runs fn once and recovers its panic (trusted by inspection: defer rescue.Recover(); fn()).
+// RunSafe(fn): runs fn once and recovers its panic. Callers execute the function literal they pass inline (flags); the body
+// is verified against the same reading: one call of fn, no panic escapes.
 //@ func RunSafe
-//@   trusted
-//@   flag runs_funcargs recovers
-//@   modifies nothing
+//@   property C05 C11 C12
+//@   flag runs_funcargs recovers callbacks_noheap
+//@   ensures calls(fn) == old(calls(fn)) + 1
+//@   ensures_panic false
